@@ -380,7 +380,7 @@ func raceKeys(log string) (keys []string, reports int) {
 func checkC34(r *ev.Run) {
 	n := r.N(12, 300)
 	nRace := r.N(4, 60)
-	r.Rule("case = one node process on the bootstrap chain (as C35) that, after each of ~6 blocks, serves for every application x chain one BURST of 20..60 relays of the current session from 2..16 goroutines through HandleRelay: distinct relays, each possibly repeated 2..4 times (identical requests racing), for the application with allowance 10 more than the allowance; in 40% of the bursts a further goroutine does what the automatic claim sender does (iterate the evidence store, generate the Merkle root, which seals) once a PRNG-chosen number of calls have returned. After the burst the evidence object is read out. Oracle: (a) no relay proof is stored twice; (b) the evidence never holds more relays than the application allows this node (reference allowance from the application record), and its counter equals its length; (c) every call that returned a signed response before the evidence was sealed (no sealer: every such call; with sealer: calls that had returned before the sealer began) has its proof in the evidence; (d) a relay is served only if the node is in the reference session. The last "+fmt.Sprint(nRace)+" cases run in a race-detector build of the node (GORACE log): every report is a violation keyed by the two innermost pocket-core functions. Non-trivial = a case with at least one burst in which >= 10 relays were served concurrently; distinct = script digest.")
+	r.Rule("case = one node process on the bootstrap chain (as C35) that, after each of ~6 blocks, serves for every application x chain one BURST of 20..60 relays of the current session from 2..16 goroutines through HandleRelay: distinct relays, each possibly repeated 2..4 times (identical requests racing), for the application with allowance 10 more than the allowance; in 40% of the bursts a further goroutine does what the automatic claim sender does (iterate the evidence store, generate the Merkle root, which seals) once a PRNG-chosen number of calls have returned. After the burst the evidence object is read out. Oracle: (a) no relay proof is stored twice; (b) the evidence never holds more relays than the application allows this node (reference allowance from the application record), and its counter equals its length; (c) every call that returned a signed response before the evidence was sealed (no sealer: every such call; with sealer: calls that had returned before the sealer began) has its proof in the evidence; (d) a relay is served only if the node is in the reference session. The last "+fmt.Sprint(nRace)+" cases run in a race-detector build of the node (GORACE log): every report is a violation keyed by the two innermost pocket-core functions. Finally a few END-TO-END cases: bursts in one session, then the node's OWN automatic claim sender and proof sender (the goroutine the module starts in every EndBlock, paced by wall-clock windows) produce the claim and proof transactions, which the driver puts into the next blocks: the claim must count exactly the distinct relays answered with a signed response, be accepted, and the node's proof must be accepted and paid (a window that yields no transaction is inconclusive, not a violation). Non-trivial = a case with at least one burst in which >= 10 relays were served concurrently; distinct = script digest.")
 	r.Assume("goroutine interleavings are whatever the Go scheduler produces on this machine under 2..16 workers (no forced schedules); the count of distinct outcomes is reported")
 	raceBin := ""
 	if nRace > 0 {
@@ -605,5 +605,14 @@ func checkC34(r *ev.Run) {
 		if si < 2 {
 			r.Sample(map[string]interface{}{"case": si, "bursts": len(plan), "blocks": nBlocks, "race_build": race})
 		}
+	})
+	// end-to-end cases with the node's own claim / proof senders (paced by wall-clock windows; see c34_e2e.go)
+	nE2E := r.N(6, 48)
+	ev.ForEach(nE2E, nE2E, func(i int) {
+		si := 100000 + i
+		if r.Only != "" && r.Only != "*" && r.Only != fmt.Sprint(si) {
+			return
+		}
+		c34EndToEnd(r, si)
 	})
 }
